@@ -44,13 +44,18 @@ ASSUMPTIONS = ["floats modelled as reals (sij is stored as float32 by the code: 
 
 # ------------------------------------------------------------------------------------------------ files, spy
 
+def _t(topo, f):
+    """per-frame neighbour topology (a list of per-frame lists) or one topology for every frame"""
+    return topo[f] if topo and topo[0] and isinstance(topo[0][0], list) else topo
+
+
 def _files(ctx, F, topo, weights=None):
     d = ctx.tmpdir()
     nb = os.path.join(d, "nb.dat")
     with open(nb, "w") as fh:
         for f in range(F):
             fh.write("id cn neighborlist\n")
-            for i, lst in enumerate(topo):
+            for i, lst in enumerate(_t(topo, f)):
                 fh.write(" ".join([str(i + 1), str(len(lst))] + [str(j + 1) for j in lst]) + "\n")
     wf = None
     if weights is not None:
@@ -141,9 +146,9 @@ def _setup(ctx, N, F, cell, ppp, topo, weighted, equal_w=False):
             w0 = ctx.real("w", positive=True)
             if ctx.mode == "conc" and not w0 > 0:
                 w0 = 1.0
-            W = [[[w0 for _ in topo[i]] for i in range(N)] for f in range(F)]
+            W = [[[w0 for _ in _t(topo, f)[i]] for i in range(N)] for f in range(F)]
         else:
-            W = [[[ctx.real(f"w{f}_{i}_{k}", positive=True) for k in range(len(topo[i]))] for i in range(N)] for f in range(F)]
+            W = [[[ctx.real(f"w{f}_{i}_{k}", positive=True) for k in range(len(_t(topo, f)[i]))] for i in range(N)] for f in range(F)]
             if ctx.mode == "conc":
                 W = [[[(w if w > 0 else 1.0) for w in lst] for lst in fr] for fr in W]
     nb, wf = _files(ctx, F, topo, W)
@@ -358,7 +363,7 @@ def h_logic(ctx, l, N, F, cell, ppp, topo, weighted=False, what=("qlm", "ql", "w
     boo = ctx.repo("PyMatterSim.static.boo")
     sym = ctx.mode == "sym"
     ru, rows, poss, S, W, nb, wf = _setup(ctx, N, F, cell, ppp, topo, weighted)
-    bonds = [_bonds(ctx, rows, ppp, poss[f], topo) for f in range(F)]
+    bonds = [_bonds(ctx, rows, ppp, poss[f], _t(topo, f)) for f in range(F)]
     spy = Spy(ctx, boo)
     try:
         obj = boo.boo_3d(S, l=l, neighborfile=nb, weightsfile=wf, ppp=np.array(ppp), Nmax=4)
@@ -369,7 +374,7 @@ def h_logic(ctx, l, N, F, cell, ppp, topo, weighted=False, what=("qlm", "ql", "w
     ctx.output("smallqlm", small)
     ctx.output("largeQlm", large)
     ctx.oblige("shapes", tuple(small.shape) == (F, N, 2 * l + 1) and tuple(large.shape) == (F, N, 2 * l + 1))
-    refs = [_ref_qlm(ctx, l, topo, Y, f, None if W is None else W[f]) for f in range(F)]
+    refs = [_ref_qlm(ctx, l, _t(topo, f), Y, f, None if W is None else W[f]) for f in range(F)]
     if "qlm" in what:
         for f in range(F):
             for i in range(N):
@@ -431,14 +436,15 @@ def h_logic(ctx, l, N, F, cell, ppp, topo, weighted=False, what=("qlm", "ql", "w
                        and len(table) == F * N)
             for f in range(min(F, len(res))):
                 arr = res[f]
+                topo_f = _t(topo, f)
                 ctx.output(f"sij_{tag}[{f}]", arr)
                 ctx.oblige(f"s_ij({tag})[{f}] shape", tuple(arr.shape) == (N, 2 + 4))
                 for i in range(N):
-                    ctx.oblige(f"s_ij({tag})[{f},{i}] id, CN", O.And(O.eq(arr[i, 0], i + 1), O.eq(arr[i, 1], len(topo[i]))))
+                    ctx.oblige(f"s_ij({tag})[{f},{i}] id, CN", O.And(O.eq(arr[i, 0], i + 1), O.eq(arr[i, 1], len(topo_f[i]))))
                     cnt = 0
                     for k in range(4):
-                        if k < len(topo[i]):
-                            j = topo[i][k]
+                        if k < len(topo_f[i]):
+                            j = topo_f[i][k]
                             up = 0
                             for m in range(2 * l + 1):
                                 a, b = vecs[f][i][m], vecs[f][j][m]
@@ -456,7 +462,7 @@ def h_logic(ctx, l, N, F, cell, ppp, topo, weighted=False, what=("qlm", "ql", "w
                         row = f * N + i
                         ctx.oblige(f"count of s_ij > c ({tag})[{f},{i}]",
                                    O.And(O.eq(table["sum_sij"].values[row], cnt), O.eq(table["id"].values[row], i + 1),
-                                         O.eq(table["num_neighbors"].values[row], len(topo[i]))))
+                                         O.eq(table["num_neighbors"].values[row], len(topo_f[i]))))
 
 
 def h_sij_bound(ctx, l):
@@ -804,6 +810,8 @@ def cfg_logic(tier, seed):
     for l in ((1, 2, 6) if tier == "quick" else (1, 2, 3, 4, 6, 8, 10, 12)):
         out.append(dict(l=l, N=3, F=1, cell="o", ppp=[0, 0, 0], topo=TOPO3, weighted=False, what=["w"]))
         out.append(dict(l=l, N=3, F=1, cell="o", ppp=[0, 0, 0], topo=TOPO3, weighted=False, what=["sij"]))
+    # two frames whose coordination numbers differ (per-frame work arrays must not carry over)
+    out.append(dict(l=2, N=3, F=2, cell="o", ppp=[0, 0, 0], topo=[[[1, 2], [0, 2], [0, 1]], [[1], [0], [0]]], weighted=False, what=["sij"]))
     # periodic cells (orthogonal / triclinic of both tilt signs), second frame
     out.append(dict(l=2, N=3, F=2, cell="o", ppp=[1, 1, 1], topo=[[1], [2], [0]], weighted=True, what=["qlm"]))
     out.append(dict(l=2, N=3, F=1, cell="t-", ppp=[1, 1, 1], topo=[[1], [2], [0]], weighted=False, what=["qlm"]))
